@@ -226,6 +226,10 @@ class Ctx:
                 traceback.print_exc()
             return [self._with_replayer(self.add(ObResult(f"{prefix}/{name}/vc-generation", "unknown",
                                       detail=f"outside the supported subset (engine: {type(e).__name__}: {str(e)[:200]})")), replayer)]
+        for ((m_, q_), ordinal, kind) in sorted(I.terminating, key=str):
+            note = f"termination: while-loop #{ordinal} of {m_.split('.')[-1]}.{q_} has a checked {kind} variant"
+            if note not in self.notes:
+                self.notes.append(note)
         for (m, q) in sorted(I.inlined):
             self.fuc(m, q, role="inlined")
         self.last_obligations = list(I.obligations)
